@@ -192,7 +192,12 @@ def check(model, rep):
     if fi is None:
         raise AnalysisError('anchor vanished: RRTStar.obstruction')
     n1, n2 = fi.params[1], fi.params[2]
-    body = fi.body()
+    # the method with its private helpers inlined, constant-trip loops unrolled and constant comprehensions expanded (AST partial
+    # evaluation, nothing is run): the rule speaks about the computation, not about how it is split into helpers and loops
+    from ..engine import peval as _pe
+    from ..engine.paths import paths_of_block
+    flat = _pe.flatten({n_: f_.node for n_, f_ in cls.methods.items()}, fi.node, depth=2, impure=True)
+    body = [s_ for s_ in flat.body if not (isinstance(s_, ast.Expr) and isinstance(s_.value, ast.Constant))]
     loops = [s for s in body if isinstance(s, ast.For)]
     if len(loops) != 1:
         raise AnalysisError('RRTStar.obstruction: expected one loop over the obstructions')
@@ -200,45 +205,31 @@ def check(model, rep):
     ok_iter = src(lp.iter) == 'self.obstructions' and isinstance(lp.target, ast.Name)
     rep.ob('R15.2', fi, 'for %s in %s' % (src(lp.target), src(lp.iter)), ok_iter,
            'the test does not iterate over all registered obstructions', line=lp.lineno)
-    after = [s for s in body if s.lineno > lp.end_lineno]
+    k_lp = body.index(lp)
+    after = body[k_lp + 1:]
     exits_after = [n for s_ in after for n in ast.walk(s_) if isinstance(n, (ast.Return, ast.Raise))]
     ok_after = bool(after) and len(exits_after) == 1 and exits_after[0] is after[-1] and isinstance(after[-1], ast.Return) \
         and isinstance(after[-1].value, ast.Constant) and after[-1].value.value is False
     rep.ob('R15.2', fi, 'return False after the loop', ok_after and not lp.orelse,
            'when no box intersects, the function does not return False')
-    before = [s for s in body if s.lineno < lp.lineno]
+    # before the loop: only the empty-set shortcut `if not self.obstructions: return False` may leave the function
+    for s_ in body[:k_lp]:
+        for n in ast.walk(s_):
+            if isinstance(n, (ast.Return, ast.Raise)):
+                guard = s_.test if isinstance(s_, ast.If) else None
+                gtxt = src(guard).replace(' ', '') if guard is not None else ''
+                ok_g = isinstance(n, ast.Return) and isinstance(n.value, ast.Constant) and n.value.value is False and gtxt in (
+                    'notself.obstructions', 'len(self.obstructions)==0', 'self.obstructions==[]', 'notlen(self.obstructions)')
+                rep.ob('R15.2', fi, 'exit before the loop: ' + src(s_)[:60], ok_g,
+                       'the function can return before testing the boxes (other than `no boxes -> False`)', line=n.lineno)
     it = Interp(n1, n2, lp.target.id if isinstance(lp.target, ast.Name) else '?')
     try:
-        for s in before:
-            if isinstance(s, ast.Assign) and len(s.targets) == 1 and isinstance(s.targets[0], ast.Name):
-                it.env[s.targets[0].id] = it.ev(s.value)
-        for s in ast.walk(lp):
-            pass
-        # assignments of the loop body in source order (must be unconditional: top level of the body)
-        for s in lp.body:
-            if isinstance(s, ast.Assign):
-                if len(s.targets) != 1 or not isinstance(s.targets[0], ast.Name):
-                    raise Uninterp('assignment target ' + src(s.targets[0]))
-                it.env[s.targets[0].id] = it.ev(s.value)
-        nested_assign = [n for s in lp.body if not isinstance(s, ast.Assign) for n in ast.walk(s) if isinstance(n, (ast.Assign, ast.AugAssign))]
-        cond_names = {t.id for n in nested_assign for t in ast.walk(n.targets[0] if isinstance(n, ast.Assign) else n.target) if isinstance(t, ast.Name)}
-        read_names = {n.id for n in ast.walk(lp) if isinstance(n, ast.Name) and isinstance(n.ctx, ast.Load)}
-        if cond_names & read_names:
-            raise Uninterp('conditionally assigned value %s is read inside the loop body' % sorted(cond_names & read_names))
-    except Uninterp as e:
-        raise AnalysisError('RRTStar.obstruction is no longer separating-axis-shaped (cannot interpret: %s)' % e)
-    # guards on the path(s) that report an obstruction
-    cmp_nodes = {}
-    for n in ast.walk(lp):
-        if isinstance(n, ast.Compare):
-            cmp_nodes[src(n)] = n
-    dom = FactDomain()
-    init = ((frozenset(), None), frozenset())
-    guards_start = [s for s in lp.body if not isinstance(s, ast.Assign)]
-    ends, brks, exits = Flow(dom).run_loop_body(guards_start, {init})
+        ends, brks, exits = paths_of_block(lp.body, fi.params)
+    except RuntimeError as ex:
+        raise AnalysisError('RRTStar.obstruction is no longer separating-axis-shaped (%s)' % ex)
     rets = [e for e in exits if e.kind == 'return']
-    true_rets = [e for e in rets if isinstance(e.node.value, ast.Constant) and e.node.value.value is True]
-    other_rets = [e for e in rets if e not in true_rets]
+    true_rets = [e for e in rets if e.ret == 'True']
+    other_rets = [e for e in rets if e.ret != 'True']
     rep.ob('R15.2', fi, 'returns inside the loop', bool(true_rets) and not other_rets and not brks,
            'inside the loop the only exit may be `return True` (found %d other returns, %d breaks)' % (len(other_rets), len(brks)), line=lp.lineno)
     exp = expected_guards()
@@ -247,19 +238,15 @@ def check(model, rep):
         rep.ob('R15.1', fi, 'single accepting path', False,
                '%d distinct paths report an obstruction; exactly one (all six axes fail to separate) is expected' % len(true_rets), line=lp.lineno)
     for e in true_rets[:1]:
-        (facts, _), _c = e.state
         seen = {}
-        for (truth, text, _names) in sorted(facts, key=lambda f: f[1]):
-            node = cmp_nodes.get(text)
-            if node is None:
-                # norm_fact may have rewritten the operator; try to parse
-                try:
-                    node = ast.parse(text, mode='eval').body
-                except SyntaxError:
-                    node = None
+        for text, truth in sorted(e.facts.items()):
+            try:
+                node = ast.parse(text, mode='eval').body
+            except SyntaxError:
+                node = None
             if not isinstance(node, ast.Compare) or len(node.ops) != 1:
                 rep.ob('R15.1', fi, 'extra condition: ' + text[:80], False,
-                       'the accepting path depends on a condition that is not a separating-axis test', line=e.node.lineno)
+                       'the accepting path depends on a condition that is not a separating-axis test', line=e.ret_line)
                 continue
             op = node.ops[0]
             l, r = node.left, node.comparators[0]
@@ -278,7 +265,7 @@ def check(model, rep):
                 strictness = isinstance(op, (ast.GtE, ast.LtE)) and truth is False or isinstance(op, (ast.Gt, ast.Lt)) and truth is True
                 rep.ob('R15.1', fi, 'guard ' + text[:100], False,
                        ('box is rejected already on equality (`>=`): boundary contact would count as free' if strictness
-                        else 'condition is not of the form NOT(lhs > rhs)'), line=node.lineno if hasattr(node, 'lineno') else lp.lineno)
+                        else 'condition is not of the form NOT(lhs > rhs)'), line=e.ret_line)
                 continue
             # a sound extra rejection: bounding spheres |m| > |h| + |L| (written with vector norms)
             def norm_arg(e_):
@@ -302,7 +289,7 @@ def check(model, rep):
                 H_ = [Poly.sym('h_%d' % i_) for i_ in range(3)]
                 if n1_ is not None and n2_ is not None and same_up_to_sign(nl, M_) and (
                         (same_up_to_sign(n1_, H_) and same_up_to_sign(n2_, L_)) or (same_up_to_sign(n1_, L_) and same_up_to_sign(n2_, H_))):
-                    rep.ob('R15.1', fi, 'bounding-sphere pre-rejection ' + text[:70], True, 'sound: |m| > |h| + |L| implies disjoint', line=getattr(node, 'lineno', lp.lineno))
+                    rep.ob('R15.1', fi, 'bounding-sphere pre-rejection ' + text[:70], True, 'sound: |m| > |h| + |L| implies disjoint', line=e.ret_line)
                     continue
             try:
                 A = it.scalar(it.ev(form[0]))
@@ -312,15 +299,13 @@ def check(model, rep):
             key = (A, B)
             if key in exp:
                 if key in seen:
-                    rep.ob('R15.1', fi, 'guard ' + text[:100], False, 'duplicate of the test for %s (another axis is missing)' % exp[key],
-                           line=getattr(node, 'lineno', lp.lineno))
+                    rep.ob('R15.1', fi, 'guard ' + text[:100], False, 'duplicate of the test for %s (another axis is missing)' % exp[key], line=e.ret_line)
                 else:
                     seen[key] = text
-                    rep.ob('R15.1', fi, exp[key], True, 'matches: ' + text[:100], line=getattr(node, 'lineno', lp.lineno))
+                    rep.ob('R15.1', fi, exp[key], True, 'matches: ' + text[:100], line=e.ret_line)
             else:
                 rep.ob('R15.1', fi, 'guard ' + text[:100], False,
-                       'not a separating-axis inequality of this segment/box: lhs = %s ; rhs = %s' % (A, B),
-                       line=getattr(node, 'lineno', lp.lineno))
+                       'not a separating-axis inequality of this segment/box: lhs = %s ; rhs = %s' % (A, B), line=e.ret_line)
         for key, name in exp.items():
             if key not in seen:
                 rep.ob('R15.1', fi, name, False, 'this separating axis is never tested on the accepting path (segments separated '
@@ -335,9 +320,12 @@ def check(model, rep):
             and src(c.func.value) == 'self.obstructions']
     ok = False
     msg = 'addObstruction does not append [tm(min corner), tm(max corner)]'
-    if len(apps) == 1 and apps[0].args and isinstance(apps[0].args[0], (ast.List, ast.Tuple)) and len(apps[0].args[0].elts) == 2:
+    from ..engine.inline import Inliner
+    il_ao = Inliner(ao)
+    pair = il_ao.expand(apps[0].args[0]) if (len(apps) == 1 and apps[0].args) else None      # corners may be named temporaries
+    if pair is not None and isinstance(pair, (ast.List, ast.Tuple)) and len(pair.elts) == 2:
         ok = True
-        for which, (el, p) in enumerate(zip(apps[0].args[0].elts, (Lp, Rp))):
+        for which, (el, p) in enumerate(zip(pair.elts, (Lp, Rp))):
             lit = None
             for n in ast.walk(el):
                 if isinstance(n, ast.List) and len(n.elts) >= 3:
